@@ -46,9 +46,15 @@ type Obligation struct {
 }
 
 type modLoc struct {
-	kind string // obj | addr | tree | map | any
+	kind string // obj | addr | tree | map | any | fieldsof
 	t    Term
 	sort Sort // for addr: sort of stored value
+	idx  int
+	// fieldsof condition
+	condVar string
+	condTy  types.Type
+	cond    ast.Expr
+	env     *Env
 }
 
 type frame struct {
@@ -620,6 +626,20 @@ func (vc *FuncVC) modPred(mods []modLoc, r Term) Term {
 				Eq(App(SRef, "fld_base", App(SRef, "fld_base", App(SRef, "fld_base", r))), m.t))
 		case "map":
 			ds = append(ds, Eq(r, m.t))
+		case "fieldsof":
+			base := App(SRef, "fld_base", r)
+			c := And(Eq(App(SInt, "rkind", r), IntLit(1)), Eq(App(SInt, "fld_idx", r), IntLit(int64(m.idx))))
+			if m.cond != nil {
+				ce := m.env.child()
+				ce.vars[m.condVar] = SVal{base, m.condTy}
+				ct, err := ce.Bool(m.cond)
+				if err != nil {
+					vc.errorf("fieldsof condition: %v", err)
+				} else {
+					c = And(c, ct)
+				}
+			}
+			ds = append(ds, c)
 		}
 	}
 	return Or(ds...)
@@ -659,6 +679,30 @@ func (vc *FuncVC) modLocOf(x ast.Expr, env *Env, c *Clause) ([]modLoc, error) {
 		}
 		return []modLoc{{kind: "obj", t: v.T}}, nil
 	case *ast.CallExpr:
+		if fn, ok := identName(n.Fun); ok && fn == "fieldsof" && len(n.Args) >= 2 {
+			// fieldsof(T, F [, p, cond]): field F of every object of struct type T (optionally those satisfying cond(p))
+			ty, err := resolveTypeExpr(e.ctx, n.Args[0])
+			if err != nil {
+				return nil, err
+			}
+			fname, _ := identName(n.Args[1])
+			path, ok := fieldPath(ty, fname, 0)
+			if !ok || len(path) != 1 {
+				return nil, fmt.Errorf("fieldsof: no direct field %s in %s", fname, typeString(ty))
+			}
+			st := under(derefType(ty)).(*types.Struct)
+			fs := vc.tc.SortOf(st.Field(path[0]).Type())
+			loc := modLoc{kind: "fieldsof", sort: fs, idx: path[0]}
+			if len(n.Args) == 4 {
+				pn, _ := identName(n.Args[2])
+				loc.condVar = pn
+				loc.condTy = types.NewPointer(derefType(ty))
+				loc.cond = n.Args[3]
+				ce := e
+				loc.env = &ce
+			}
+			return []modLoc{loc}, nil
+		}
 		if fn, ok := identName(n.Fun); ok && len(n.Args) == 1 {
 			switch fn {
 			case "elems":
@@ -667,6 +711,8 @@ func (vc *FuncVC) modLocOf(x ast.Expr, env *Env, c *Clause) ([]modLoc, error) {
 					return nil, err
 				}
 				return []modLoc{{kind: "obj", t: App(SRef, "sarr", v.T)}}, nil
+			case "fieldsof":
+				// handled below (needs 2+ args)
 			case "mapobj":
 				v, err := e.Eval(n.Args[0])
 				if err != nil {
